@@ -212,7 +212,9 @@ def split_cases(text):
 
 
 def run_model(trace_path, out_path, raw=False, socket=False):
-    rc, out = sh("%s %s %s %s > %s" % (RUNNER, "--raw" if raw else "", "--socket" if socket else "", trace_path, out_path), timeout=1200)
+    # the extracted list functions are not tail-recursive: megabyte values need a deep stack
+    rc, out = sh("ulimit -s unlimited 2>/dev/null || ulimit -s 1000000 2>/dev/null; %s %s %s %s > %s" % (
+        RUNNER, "--raw" if raw else "", "--socket" if socket else "", trace_path, out_path), timeout=1200)
     return rc == 0, out
 
 
@@ -260,8 +262,8 @@ def replay_trace(trace_lines, work, tag, profile="seq"):
 
 def minimize(trace_lines, work, profile="seq"):
     """delta-debug the event lines of one case (header kept), re-running both sides"""
-    if profile == "conc":
-        return trace_lines  # threads + schedule: kept whole
+    if profile in ("conc", "limit", "cfg"):
+        return trace_lines  # threads + schedule / timed lifecycles: kept whole
     header, events = trace_lines[0], [l for l in trace_lines[1:] if l[:1] not in "OG"]
     def rt(lines, work, tag):
         return replay_trace(lines, work, tag, profile)
@@ -411,6 +413,8 @@ PROPS = {
     "C15": {"seq": [("policy", 1024, 100000, 40, 80), ("policy", 1024, 400, 40, 60), ("ttl", 1024, 500, 30, 60),
                     ("flush", 1024, 500, 30, 60), ("cas", 1024, 500, 30, 50), ("counter", 1024, 500, 20, 50)],
             "relevant": "UMR"},
+    "C17": {"seq": [("mix", 1024, None, 10, 20)], "limit": 8, "relevant": "V", "no_minimize": True},
+    "C20": {"seq": [("mix", 1024, 1000000, 30, 40), ("mix", 1024, None, 10, 30)], "cfg": 8, "relevant": "RSCT"},
     "C18": {"seq": [("cuts", 1024, None, 60, 30), ("malformed", 1024, None, 40, 30)],
             "conn": [("cuts", 1024, None, 30, 25), ("malformed", 1024, None, 30, 25), ("mix", 1024, None, 20, 25)],
             "relevant": "RSM"},
@@ -418,7 +422,7 @@ PROPS = {
             "relevant": "RM"},
 }
 
-KINDS = {"R": "responses", "S": "connection status", "M": "store content", "U": "accounting", "T": "operation results under a schedule", "W": "frame monitor"}
+KINDS = {"R": "responses", "S": "connection status", "M": "store content", "U": "accounting", "T": "operation results under a schedule", "W": "frame monitor", "V": "which connections are served", "N": "connection not served"}
 
 
 def load_known():
@@ -476,6 +480,63 @@ def run_conc_suites(prop, cfg, tier, seed, work, report):
             if cs:
                 report["samples"].append({"suite": tag, "trace": cs[0][1][:12]})
         report["suites"].append(tag)
+    if cfg.get("cfg"):
+        tag = "cfg"
+        tout, iobs, mobs, st = [os.path.join(work, tag + e) for e in (".trace", ".impl", ".model", ".stats")]
+        ncfg = cfg["cfg"] if tier == "quick" else cfg["cfg"] * 12
+        cmd = [HBIN, "cfg-gen", "--seed", str(seed), "--configs", str(ncfg), "--steps", "40" if tier == "quick" else "120",
+               "--trace", tout, "--obs", iobs, "--stats", st]
+        rc, out = sh(cmd, timeout=3000)
+        if rc != 0:
+            rc, out2 = sh(cmd, timeout=3000)
+            out += out2
+        if rc != 0:
+            report["errors"].append("harness failed on suite cfg: %s" % out[-500:])
+        else:
+            ok, out = run_model(tout, mobs, socket=True)
+            if not ok:
+                report["errors"].append("runner failed on cfg: %s" % out[-500:])
+            else:
+                d, ncs = compare(tout, iobs, mobs)
+                report["cases"] += ncs
+                txt = open(tout).read()
+                report["events"] += sum(1 for l in txt.splitlines() if l[:2] == "C ")
+                report["distribution"]["configurations"] = report["distribution"].get("configurations", 0) + ncs
+                for x in d:
+                    diffs.append((tag,) + x)
+                if not report["samples"]:
+                    cs = split_cases(txt)
+                    if cs:
+                        report["samples"].append({"suite": tag, "configuration": cs[0][0], "trace": [l[:120] for l in cs[0][1][:6]]})
+                report["suites"].append(tag)
+    if cfg.get("limit"):
+        tag = "limit"
+        tout, iobs, mobs, st = [os.path.join(work, tag + e) for e in (".trace", ".impl", ".model", ".stats")]
+        ncases = cfg["limit"] if tier == "quick" else cfg["limit"] * 6
+        cmd = [HBIN, "limit-gen", "--seed", str(seed), "--cases", str(ncases), "--trace", tout, "--obs", iobs, "--stats", st]
+        if tier == "quick":
+            cmd += ["--rounds", "4"]
+        rc, out = sh(cmd, timeout=3000)
+        if rc != 0:
+            report["errors"].append("harness failed on suite limit: %s" % out[-500:])
+        else:
+            ok, out = run_model(tout, mobs)
+            if not ok:
+                report["errors"].append("runner failed on limit: %s" % out[-500:])
+            else:
+                d, ncs = compare(tout, iobs, mobs)
+                report["cases"] += ncs
+                txt = open(tout).read()
+                report["events"] += sum(1 for l in txt.splitlines() if l.split(" ")[0] in ("CONN", "END", "PROBE"))
+                for k, v in json.load(open(st)).items():
+                    report["distribution"][k] = report["distribution"].get(k, 0) + v
+                for x in d:
+                    diffs.append((tag,) + x)
+                if not report["samples"]:
+                    cs = split_cases(txt)
+                    if cs:
+                        report["samples"].append({"suite": tag, "trace": cs[0][1][:14]})
+                report["suites"].append(tag)
     if cfg.get("sweep"):
         tag = "sweep"
         mon, st = os.path.join(work, "sweep.monitor"), os.path.join(work, "sweep.stats")
